@@ -254,7 +254,7 @@ def strat_lib(draw):
             # the permutations that a range can express: identity and reversal
             seq = sorted(seq, reverse=draw(st.booleans()))
         if kind == 'invalid':
-            how = draw(st.sampled_from(['short', 'long', 'repeat', 'range', 'zero', 'shift', 'negative-alias', 'negative-alias', 'all-negative', 'fraction', 'fraction']))
+            how = draw(st.sampled_from(['short', 'long', 'repeat', 'range', 'zero', 'shift', 'negative-alias', 'negative-alias', 'all-negative', 'fraction', 'fraction', 'same-sum', 'same-sum']))
             if how == 'short':
                 if not seq:
                     seq = [1]
@@ -278,6 +278,11 @@ def strat_lib(draw):
                 order = sorted(range(len(seq)), key=lambda i_: seq[i_])
                 i = order[draw(st.integers(1, len(seq) - 2))]
                 seq[i] = seq[i] + draw(st.sampled_from([0.5, -0.5, 0.25]))
+            elif how == 'same-sum' and len(seq) >= 3 and key != 'pf':
+                # right length, every entry in range, the right sum and even the right sum of squares in some cases - but entries
+                # repeat: the smallest entry is raised by one and the largest lowered by one
+                i, j = seq.index(min(seq)), seq.index(max(seq))
+                seq[i], seq[j] = seq[i] + 1, seq[j] - 1
             elif how == 'all-negative' and seq and key != 'pf':
                 seq = [x - (size + 1 if key == 'vp' else size) for x in seq]
             elif how == 'shift' and seq and key != 'pf':
@@ -484,7 +489,7 @@ def enum_pipe(tier):
 
 SUBCHECKS = [
     SubCheck('library', run_lib, strategy=strat_lib, enumerate_cases=enum_lib, quick=3000, thorough=120000,
-             rule="CNFs with 0..8 variables, 0..10 clauses (duplicates, empty clauses, unused variables) x each of the three arguments in {'fixed','shuffle', explicit sequence given as list / tuple / range (identity, reversal) / array.array / UserList, explicit invalid (wrong length, repeated, out of range, 0/2 flips, shifted base, images replaced by the negative numbers that index the same table slot from the end, a non-integral number between the extremes)} x seeds; complete slice: every explicit (flips, permutation, clause permutation) on two small formulas; oracle: explicit => equals the documented mapping, invalid => ValueError, random => hook witness verified (or backtracking search), same variable/clause counts, width multiset and model count, inputs untouched, description keeps the original text; non-trivial: >=3 variables, >=3 distinct clauses, some component not fixed",
+             rule="CNFs with 0..8 variables, 0..10 clauses (duplicates, empty clauses, unused variables) x each of the three arguments in {'fixed','shuffle', explicit sequence given as list / tuple / range (identity, reversal) / array.array / UserList, explicit invalid (wrong length, repeated, out of range, 0/2 flips, shifted base, images replaced by the negative numbers that index the same table slot from the end, a non-integral number between the extremes, entries in range with the right sum but repeated)} x seeds; complete slice: every explicit (flips, permutation, clause permutation) on two small formulas; oracle: explicit => equals the documented mapping, invalid => ValueError, random => hook witness verified (or backtracking search), same variable/clause counts, width multiset and model count, inputs untouched, description keeps the original text; non-trivial: >=3 variables, >=3 distinct clauses, some component not fixed",
              required_labels=['pf:fixed', 'pf:shuffle', 'pf:explicit', 'vp:fixed', 'vp:shuffle', 'vp:explicit', 'cp:fixed',
                               'cp:shuffle', 'cp:explicit', 'invalid-rejected', 'hook-witness', 'searched-witness', 'reference',
                               'descending-range', 'as:array', 'as:UserList']),
